@@ -297,3 +297,60 @@ Theorem vn_bestW_f64_terminates_closed : forall ws p, Forall okV ws ->
   (forall L, parts_loadW F64arith ws p (part_count p) = Ok L -> Forall okV L) ->
   exists fuel0, forall fuel, (fuel0 <= fuel)%nat -> vn_bestW F64arith true fuel ws p <> OutOfFuel.
 Proof. exact (vn_bestW_f64_terminates f64_rounding_facts_hold). Qed.
+
+(* ====================================================================== *)
+(* Greedy (C12): the admitted binary64 values are closed under +            *)
+(* ====================================================================== *)
+From Coupe Require Import Proofs.ArithWLemmas.
+Open Scope R_scope.
+
+(* +0, the positive finite numbers in canonical representation, and +infinity (a sum may overflow) *)
+Definition okFv (x : spec_float) : Prop := valid_binary 53 1024 x = true /\ okF x.
+
+Lemma okFv_okF x : okFv x -> okF x.
+Proof. now intros [_ H]. Qed.
+
+Lemma F64_order_laws_v : order_laws F64arith okFv.
+Proof.
+  pose proof F64_order_laws as [L1 L2 L3 L4 L5 L6].
+  constructor.
+  - intros x Hx. apply L1. now apply okFv_okF.
+  - intros x y Hx Hy. apply L2; now apply okFv_okF.
+  - intros x y z Hx Hy Hz. apply L3; now apply okFv_okF.
+  - intros x y Hx Hy. apply L4; now apply okFv_okF.
+  - intros x y Hx Hy. apply L5; now apply okFv_okF.
+  - split; reflexivity.
+Qed.
+
+(* the rounded sum of two non-negative binary64 numbers is a non-negative number: never NaN, never -0.0
+   (it may be +infinity) *)
+Theorem F64_add_closed : add_closed F64arith okFv.
+Proof.
+  intros x y [Vx Hx] [Vy Hy]. cbn [F64arith w_add].
+  destruct x as [sx|sx| |sx mx ex], y as [sy|sy| |sy my ey]; cbn [okF] in Hx, Hy; try contradiction; subst.
+  - split; reflexivity.
+  - split; reflexivity.
+  - split; [exact Vy|reflexivity].
+  - split; reflexivity.
+  - split; reflexivity.
+  - split; reflexivity.
+  - split; [exact Vx|reflexivity].
+  - split; reflexivity.
+  - (* two positive finite numbers *)
+    set (X := SF2B (S754_finite false mx ex) Vx : bf64). set (Y := SF2B (S754_finite false my ey) Vy : bf64).
+    assert (EX : B2SF X = S754_finite false mx ex) by apply B2SF_SF2B.
+    assert (EY : B2SF Y = S754_finite false my ey) by apply B2SF_SF2B.
+    rewrite <- EX, <- EY, add_link'.
+    assert (FX : BinarySingleNaN.is_finite X = true) by reflexivity.
+    assert (FY : BinarySingleNaN.is_finite Y = true) by reflexivity.
+    assert (SX : Bsign X = false) by reflexivity. assert (SY : Bsign Y = false) by reflexivity.
+    assert (PX : 0 <= B2R X) by (apply F2R_ge_0; cbn; lia).
+    assert (PY : 0 <= B2R Y) by (apply F2R_ge_0; cbn; lia).
+    pose proof (Bplus_correct 53 1024 _ _ mode_NE X Y FX FY) as C.
+    destruct (Rlt_bool _ _).
+    + destruct C as [C1 [C2 C3]].
+      assert (SS : Bsign (Bplus mode_NE X Y) = false).
+      { rewrite C3, SX, SY. destruct (Rcompare_spec (B2R X + B2R Y) 0); auto. lra. }
+      destruct (okV_B2SF _ C2 SS) as [V H]. split; [exact V|]. now apply okV0_okF.
+    + destruct C as [C1 _]. rewrite C1, SX, overflow_inf. split; reflexivity.
+Qed.
